@@ -79,6 +79,24 @@ theorem C05_merge (fn : Option Nat) (reverse : Bool) (srcs : List Nat) (fuel : N
     Twin (Impl.merge fn reverse srcs fuel) (Std.merge fn reverse srcs fuel) :=
   tryFinally_twin _ _ (closeAll_quiet srcs)
 
+/-- `dropwhile`: asyncstdlib's two loops over one iterator = `dropwhile_next`'s single loop with a flag -/
+theorem C05_dropwhile (f s fuel : Nat) : Twin (Impl.dropwhile f s fuel) (Std.dropwhileLoop f s false fuel) := by
+  have h1 := scopedIter_twin s (do match ← Impl.dropPhase f s fuel with
+        | some rest => forEach s (fun x => do yieldV x; pure true) rest
+        | none => pure () : M Unit)
+  intro w
+  rw [← dropwhile_body_eq f s fuel w]
+  exact h1 w
+
+/-- `compress`: two scopes around a `zip` of both iterators = `compress_next` -/
+theorem C05_compress (d sel fuel : Nat) : Twin (Impl.compress d sel fuel) (Std.compressLoop d sel fuel) := by
+  have h1 : Twin (Impl.compress d sel fuel) (Std.zipLoop [d, sel] compressK fuel) := by
+    unfold Impl.compress
+    exact (scopedIter_twin d _).trans ((scopedIter_twin sel _).trans (tryFinally_twin _ _ (closeAll_quiet _)))
+  intro w
+  rw [← zipLoop_eq_compressLoop d sel fuel w]
+  exact h1 w
+
 theorem C05_all (s fuel : Nat) : Twin (Impl.all s fuel) (Std.allLoop s fuel) := scopedIter_twin s _
 theorem C05_any (s fuel : Nat) : Twin (Impl.any s fuel) (Std.anyLoop s fuel) := scopedIter_twin s _
 
